@@ -369,7 +369,14 @@ impl QueryEngine {
     /// Extract time range from a SQL query by analyzing the logical plan
     pub async fn extract_time_range(&self, sql: &str) -> Result<TimeRange> {
         let df = self.ctx.sql(sql).await?;
-        let plan = df.logical_plan();
+        // Work on the analyzed and simplified plan: bounds written as TIMESTAMP '...'
+        // literals (casts) or relative to now() are plain literals there.
+        let plan = self
+            .ctx
+            .state()
+            .optimize(df.logical_plan())
+            .unwrap_or_else(|_| df.logical_plan().clone());
+        let plan = &plan;
 
         // Extract time predicates from the plan
         let mut min_time: Option<i64> = None;
@@ -395,8 +402,14 @@ impl QueryEngine {
     ) {
         match plan {
             LogicalPlan::Filter(filter) => {
-                Self::extract_time_from_expr(&filter.predicate, min_time, max_time);
+                Self::extract_time_from_expr(&filter.predicate, false, min_time, max_time);
                 Self::extract_time_bounds(&filter.input, min_time, max_time);
+            }
+            LogicalPlan::TableScan(scan) => {
+                // The optimizer pushes filters into the scan
+                for filter in &scan.filters {
+                    Self::extract_time_from_expr(filter, false, min_time, max_time);
+                }
             }
             LogicalPlan::Projection(proj) => {
                 Self::extract_time_bounds(&proj.input, min_time, max_time);
@@ -414,60 +427,89 @@ impl QueryEngine {
         }
     }
 
-    /// Extract time bounds from a filter expression
-    fn extract_time_from_expr(expr: &Expr, min_time: &mut Option<i64>, max_time: &mut Option<i64>) {
+    /// Extract time bounds from a filter expression.
+    ///
+    /// Collects the hull of every bound on the timestamp that appears anywhere in the
+    /// expression: the smallest lower bound and the largest upper bound. For a predicate
+    /// that confines the timestamp to a finite window this hull contains the window,
+    /// whatever the AND / OR / NOT structure. `negated` tracks the polarity under NOT.
+    fn extract_time_from_expr(
+        expr: &Expr,
+        negated: bool,
+        min_time: &mut Option<i64>,
+        max_time: &mut Option<i64>,
+    ) {
+        fn is_time_column(expr: &Expr) -> bool {
+            matches!(expr, Expr::Column(col) if col.name == "timestamp" || col.name == "time")
+        }
+        fn lower(min_time: &mut Option<i64>, value: i64) {
+            *min_time = Some(min_time.unwrap_or(i64::MAX).min(value));
+        }
+        fn upper(max_time: &mut Option<i64>, value: i64) {
+            *max_time = Some(max_time.unwrap_or(i64::MIN).max(value));
+        }
+
         match expr {
             Expr::BinaryExpr(binary) => {
-                // Check if this is a timestamp comparison
-                if let Expr::Column(col) = binary.left.as_ref() {
-                    if col.name == "timestamp" || col.name == "time" {
-                        if let Some(value) = Self::extract_timestamp_value(&binary.right) {
-                            match binary.op {
-                                Operator::Gt | Operator::GtEq => {
-                                    *min_time = Some(min_time.unwrap_or(i64::MAX).min(value));
-                                }
-                                Operator::Lt | Operator::LtEq => {
-                                    *max_time = Some(max_time.unwrap_or(i64::MIN).max(value));
-                                }
-                                Operator::Eq => {
-                                    *min_time = Some(value);
-                                    *max_time = Some(value);
-                                }
-                                _ => {}
-                            }
-                        }
-                    }
-                }
-                // Handle reversed comparison (literal on left)
-                if let Expr::Column(col) = binary.right.as_ref() {
-                    if col.name == "timestamp" || col.name == "time" {
-                        if let Some(value) = Self::extract_timestamp_value(&binary.left) {
-                            match binary.op {
-                                Operator::Lt | Operator::LtEq => {
-                                    *min_time = Some(min_time.unwrap_or(i64::MAX).min(value));
-                                }
-                                Operator::Gt | Operator::GtEq => {
-                                    *max_time = Some(max_time.unwrap_or(i64::MIN).max(value));
-                                }
-                                _ => {}
-                            }
-                        }
-                    }
-                }
-                // Recurse into AND/OR expressions
                 if matches!(binary.op, Operator::And | Operator::Or) {
-                    Self::extract_time_from_expr(&binary.left, min_time, max_time);
-                    Self::extract_time_from_expr(&binary.right, min_time, max_time);
+                    Self::extract_time_from_expr(&binary.left, negated, min_time, max_time);
+                    Self::extract_time_from_expr(&binary.right, negated, min_time, max_time);
+                    return;
+                }
+
+                // `timestamp <op> value`, or `value <op> timestamp` with the operator mirrored
+                let (value, op) = if is_time_column(&binary.left) {
+                    (Self::extract_timestamp_value(&binary.right), Some(binary.op))
+                } else if is_time_column(&binary.right) {
+                    (Self::extract_timestamp_value(&binary.left), binary.op.swap())
+                } else {
+                    (None, None)
+                };
+                let (Some(value), Some(op)) = (value, op) else {
+                    return;
+                };
+                let op = if negated { op.negate() } else { Some(op) };
+                match op {
+                    Some(Operator::Gt | Operator::GtEq) => lower(min_time, value),
+                    Some(Operator::Lt | Operator::LtEq) => upper(max_time, value),
+                    Some(Operator::Eq) => {
+                        lower(min_time, value);
+                        upper(max_time, value);
+                    }
+                    _ => {}
                 }
             }
+            Expr::Not(inner) => {
+                Self::extract_time_from_expr(inner, !negated, min_time, max_time);
+            }
             Expr::Between(between) => {
-                if let Expr::Column(col) = between.expr.as_ref() {
-                    if col.name == "timestamp" || col.name == "time" {
-                        if let Some(low) = Self::extract_timestamp_value(&between.low) {
-                            *min_time = Some(min_time.unwrap_or(i64::MAX).min(low));
+                if is_time_column(&between.expr) {
+                    let low = Self::extract_timestamp_value(&between.low);
+                    let high = Self::extract_timestamp_value(&between.high);
+                    if between.negated != negated {
+                        // NOT BETWEEN low AND high: timestamp < low OR timestamp > high
+                        if let Some(low) = low {
+                            upper(max_time, low);
                         }
-                        if let Some(high) = Self::extract_timestamp_value(&between.high) {
-                            *max_time = Some(max_time.unwrap_or(i64::MIN).max(high));
+                        if let Some(high) = high {
+                            lower(min_time, high);
+                        }
+                    } else {
+                        if let Some(low) = low {
+                            lower(min_time, low);
+                        }
+                        if let Some(high) = high {
+                            upper(max_time, high);
+                        }
+                    }
+                }
+            }
+            Expr::InList(in_list) => {
+                if is_time_column(&in_list.expr) && in_list.negated == negated {
+                    for item in &in_list.list {
+                        if let Some(value) = Self::extract_timestamp_value(item) {
+                            lower(min_time, value);
+                            upper(max_time, value);
                         }
                     }
                 }
